@@ -91,8 +91,12 @@ def oracle(log):
         figs = {}
         for tok in parts[2].split():
             q = tok.split(':')
-            if len(q) == 3 and q[0].isdigit():
+            if len(q) in (3, 4) and q[0].isdigit():
                 figs[int(q[0])] = (q[1], int(q[2]))
+                # deeply tracked types: the block source deep inside must report to the tracker of the object it is part of
+                if len(q) == 4 and q[3] != q[0]:
+                    who = {'n': 'no tracker at all (null)', 'x': 'a tracker that belongs to no existing object (destroyed or temporary)'}.get(q[3], 'the tracker inside the object of slot ' + q[3])
+                    msgs.append('after "%s" the deeply tracked allocator in slot %s reports its growth to %s' % (head, q[0], who))
         hp = head.split()
         if op in ('mc', 'ma', 'sw') and len(hp) >= 3 and '=' in hp and hp[hp.index('=') + 1] in ('moved', 'assigned', 'swapped') and prev_figs:
             i, j = int(hp[1]), int(hp[2])
@@ -166,8 +170,8 @@ def run(ctx):
                           dict(harness='h_pool.cpp', config=r['case']['tag'][1], script=r['case']['script'].split('\n'), all=lmsgs[:5]))
     ctx.tie_broken = ctx.tie_broken[:6]
     ctx.cov.update(dict(
-        tie=dict(kind='Exec lock-step of the ownership model: for every operation the set of blocks returned upstream must equal the model\'s, the moved-from / live / empty state of the four slots must agree, at exit the remaining objects return exactly what the model says they own; independent oracle: byte patterns written into memory obtained before a move are verified after every operation and before release through the new owner, no block returned twice or never, moves and swaps make no upstream call, no stale write into returned blocks, no abort in any configuration (assertions on in dbg8)',
-                 configs=cfgs, types=TYPES, histories=len(cases), leak_accounting_histories_with_moves=len(lcases), model_steps=tot.get('ops', 0), move_constructions=tot.get('moves', 0), move_assignments=tot.get('assigns', 0), swaps=tot.get('swaps', 0), destructions=tot.get('dels', 0), divergences=tot.get('diverged', 0)),
+        tie=dict(kind='Exec lock-step of the ownership model: for every operation the set of blocks returned upstream must equal the model\'s, the moved-from / live / empty state of the four slots must agree, at exit the remaining objects return exactly what the model says they own; for the deeply tracked stack the slot whose tracker the block source deep inside reports to is compared with DeepTracker.dt_step after every operation (std::swap as move construction into a temporary, two move assignments, destruction); independent oracle: byte patterns written into memory obtained before a move are verified after every operation and before release through the new owner, no block returned twice or never, moves and swaps make no upstream call, no stale write into returned blocks, no abort in any configuration (assertions on in dbg8)',
+                 configs=cfgs, types=TYPES, histories=len(cases), leak_accounting_histories_with_moves=len(lcases), model_steps=tot.get('ops', 0), move_constructions=tot.get('moves', 0), move_assignments=tot.get('assigns', 0), swaps=tot.get('swaps', 0), destructions=tot.get('dels', 0), deep_tracker_model_steps=tot.get('tracker_steps', 0), divergences=tot.get('diverged', 0)),
         evaluations=len(cases), distinct_nontrivial=len(set(c['script'] for c in cases)),
         rule='per type seeded histories over four slots: construct, take memory (forcing growth), release through the current owner, move-construct into an empty slot, move-assign onto live (non-empty) and moved-from targets, swap (friend swap where the type has one, std::swap otherwise) of live and moved-from objects, destroy live and moved-from objects, chains of moves; object placed below and above its memory; distinct = distinct scripts'))
     if res:
